@@ -33,7 +33,7 @@ QUNITS = ["cm/g2", "km", "J/s", "m2", "kg*m/s2"]
 @st.composite
 def entry(draw):
     sym = draw(st.sampled_from(FRESH))
-    form = draw(st.sampled_from(["dict", "dict", "quantity", "dict_type"]))
+    form = draw(st.sampled_from(["dict", "dict", "quantity", "dict_type", "dict_type", "dict_builtin"]))
     if form == "quantity":
         return {"sym": sym, "form": form, "mag": draw(st.sampled_from([1.0, 2.0, 0.5, 60.0])), "unit": draw(st.sampled_from(QUNITS))}
     return {"sym": sym, "form": form, "mag": draw(st.sampled_from([1.0, 3.0, 0.25, 1e3])), "dims": draw(st.sampled_from(DIMS)),
@@ -172,6 +172,9 @@ def _build(ents, typ):
                 x["name"] = "unit " + e["sym"]
             if e["form"] == "dict_type":
                 x["definition"] = typ
+            elif e["form"] == "dict_builtin":
+                from scinumtools.units.unit_types import TemperatureUnitType
+                x["definition"] = TemperatureUnitType       # a conversion type that is already in the table
             d[e["sym"]] = x
     return d
 
@@ -238,6 +241,7 @@ def _check(case, v):
         if snap["prefixes"] != R.PRISTINE["prefixes"]:
             return v.fail("prefix-table", f"step {step} ({what}): UNIT_PREFIXES changed")
         want_types = list(R.PRISTINE["types"])
+        # the custom conversion type is in the table exactly while at least one open scope registered a unit with it
         ntyp = sum(1 for _env, _r, ents in stack if any(e["form"] == "dict_type" for e in ents))
         if ntyp:
             want_types = ["HarnessUnitType"] + want_types
@@ -276,10 +280,6 @@ def _check(case, v):
             ents = o[1]
             if name == "open" and len(stack) >= 4:
                 continue
-            # at most one scope with the custom type at a time keeps the model of UNIT_TYPES simple
-            if any(e["form"] == "dict_type" or e.get("with_type") for e in ents) and \
-                    any(any(e["form"] == "dict_type" for e in es) for _a, _b, es in stack):
-                ents = [dict(e, form="dict") if e["form"] == "dict_type" else dict(e, with_type=False) for e in ents]
             ok, rows = _expect(ents, table_rows())
             d = _build(ents, typ)
             try:
